@@ -259,6 +259,12 @@ Proof. unfold st_frame. repeat split. Qed.
 Lemma pos_add0 p : {| p_file := p_file p; p_line := p_line p + 0 |} = p.
 Proof. destruct p; cbn. rewrite N.add_0_r. reflexivity. Qed.
 
+Lemma count_nl_env body : count_nl (dollar :: lbrace :: body ++ [rbrace]) = count_nl body.
+Proof.
+  unfold count_nl. f_equal. cbn [filter]. change (Byte.eqb dollar x0a) with false. change (Byte.eqb lbrace x0a) with false.
+  rewrite filter_app, app_length. cbn. lia.
+Qed.
+
 Lemma unit_effect e u st p :
   unit_wf u = true ->
   exists st', run_action e (act_of u) (render1 u) st p
@@ -285,12 +291,13 @@ Proof.
     { rewrite Forall_forall. intros c Hc. rewrite forallb_forall in Hwf. specialize (Hwf c Hc).
       apply andb_prop in Hwf as [_ H]. apply negb_true_iff in H. apply byte_eqb_neq in H. exact H. }
     cbn [run_action]. rewrite (env_lookup_spec e body Hnz). unfold env_subst. rewrite (cstr_no_nul body Hnz).
+    rewrite (count_nl_env body). unfold add_lines, newlines.
     destruct (find_colon_dash body []) as [name dflt].
     destruct (getenv e name) as [v|].
-    + eexists. split; [rewrite pos_add0; reflexivity|]. split; [apply q_data_qputs|apply frame_set_q].
+    + eexists. split; [reflexivity|]. split; [apply q_data_qputs|apply frame_set_q].
     + destruct dflt as [d|].
-      * eexists. split; [rewrite pos_add0; reflexivity|]. split; [apply q_data_qputs|apply frame_set_q].
-      * eexists. split; [rewrite pos_add0; reflexivity|]. split; [rewrite app_nil_r; reflexivity|apply frame_refl].
+      * eexists. split; [reflexivity|]. split; [apply q_data_qputs|apply frame_set_q].
+      * eexists. split; [reflexivity|]. split; [rewrite app_nil_r; reflexivity|apply frame_refl].
 Qed.
 
 (* what is observable of a cfg_yylex result *)
